@@ -343,6 +343,17 @@ func solve(ctx context.Context, file string, timeoutS int, only []string, all bo
 			}
 		}
 	}
+	if best == nil {
+		allErr := len(res.All) > 0
+		for _, st := range res.All {
+			if st != "error" {
+				allErr = false
+			}
+		}
+		if allErr {
+			res.Status = "error"
+		}
+	}
 	if best != nil {
 		res.Status = best.status
 		res.Solver = best.name
